@@ -31,7 +31,8 @@ COMMON = dict(
     block_depth=4,
     w_stmt=dict(with_=5.0, raise_=0.4, try_=1.5, ret=0.5, orphan=0, read=0.6),
     w_leaf=dict(call=6, item=5, err=0.3, junk=0.03, lazy=0.3, again=0.4, dbg=0.3, const=0.8),
-    lazy_modes=["ok", "ok", "raise"],
+    lazy_modes=["ok", "sync", "sync", "raise"],
+    p_ctx_sync=0.15,
     p_try_raise=0.4,
     kinds=2,
 )
